@@ -6,6 +6,8 @@ code / the task-factory seam / the public API, and monitors tagged by property.
 from __future__ import annotations
 
 import asyncio
+import asyncio.coroutines
+import collections.abc
 import gc
 import functools
 import hashlib
@@ -84,6 +86,41 @@ class _CbCallable:
 
     def __call__(self, task_id):
         return self._fn(task_id)
+
+
+class _CbMarked:
+    """An instance with a plain __call__ that hands back a coroutine, tagged as a coroutine function the way asyncio's
+    own helpers (and unittest.mock.AsyncMock) tag objects: `asyncio.iscoroutinefunction()` says yes,
+    `inspect.iscoroutinefunction()` says no.  The pool accepts it as an async callback and must await it."""
+    __slots__ = ("_fn",)
+    _is_coroutine = asyncio.coroutines._is_coroutine
+
+    def __init__(self, fn):
+        self._fn = fn
+
+    def __call__(self, task_id):
+        return self._fn(task_id)
+
+
+class _AbcCoroutine(collections.abc.Coroutine):
+    """What a marked coroutine function may return instead of a native coroutine object: any collections.abc.Coroutine
+    (compiled coroutines, instrumentation wrappers).  Delegates everything to the real worker coroutine."""
+    __slots__ = ("_c",)
+
+    def __init__(self, c):
+        self._c = c
+
+    def send(self, value):
+        return self._c.send(value)
+
+    def throw(self, *exc):
+        return self._c.throw(*exc)
+
+    def close(self):
+        return self._c.close()
+
+    def __await__(self):
+        return self._c.__await__()
 
 
 def _cb_with_prefix(fn, _bound, task_id):
@@ -277,6 +314,7 @@ class PoolCtx:
         self.last_start_idx = None
         self.rejected_starts = 0
         self.last_set_seq = None
+        self.group_cancels = 0       # cancel_group/cancel_all executed on this pool (C07: siblings keep progressing)
         self.progress_off = False    # pool_size was assigned while spawners were waiting (F-SIZE region): only limits are checked
 
 
@@ -450,10 +488,17 @@ class Sim:
 
     def violate_progress(self, pc, prop, oracle, msg):
         """A request that does not make the progress C04/C05 promise; if a failure was injected in this
-        pool, the same observation also contradicts C12 (a failure harms only the failing task)."""
+        pool, the same observation also contradicts C12 (a failure harms only the failing task); if a group
+        was cancelled in this pool, it contradicts C07 (pending requests of other groups keep progressing -
+        a cancelled request is never expected to progress, so whatever is reported here is a sibling)."""
         self.violate(prop, oracle, msg)
         if self.inj_by_pool[pc.idx] or pc.call_failures:
             self.violate("C12", "sibling_progress:" + oracle, msg)
+        if pc.group_cancels and not any(t.early for t in pc.tasks) and not any(r.lock_hit for r in pc.reqs):
+            # (a task cancelled before its first step leaks its slot - recorded finding F-EARLY, reported under
+            #  C02/C05 - and a lock that arrives while a request is outstanding ends that request - recorded finding
+            #  F-LOCK, reported under C04/C08; what they do to requests is not charged to the group cancellation)
+            self.violate("C07", "sibling_progress:" + oracle, msg)
 
     def violate(self, prop, oracle, msg, **kw):
         if self.props is not None and prop not in self.props:
@@ -636,6 +681,10 @@ class Sim:
         def factory(*args, **kwargs):
             inv = sim._on_call(owner, args, kwargs, False)
             coro = sim._body(inv)
+            if fk == "abc":
+                # the marked function hands back a collections.abc.Coroutine that is not a native coroutine object
+                sim.stats["probe:abc_coroutine_worker"] += 1
+                coro = _AbcCoroutine(coro)
             inv.coro = coro
             return coro
         factory.__name__ = fname
@@ -763,8 +812,13 @@ class Sim:
                 g += 1
             inv.gate_no = n
             self._op_point("we", inv)
-            if inv.script.get("end") == "x":
+            if inv.script.get("end") in ("x", "xg", "xm"):
                 e = WorkerError(f"end r{inv.req.label}#{inv.idx}")
+                if inv.script["end"] != "x":
+                    # the failure of a supervising coroutine: an exception group that carries the CancelledError of one of
+                    # ITS children (alone, or next to an ordinary error).  Nobody cancelled this task: it failed.
+                    self.stats["fault:worker_raises_group_with_cancellation"] += 1
+                    e = BaseExceptionGroup(f"children of r{inv.req.label}#{inv.idx}", [CancelledError()] + ([e] if inv.script["end"] == "xm" else []))
                 self.injected.append(e)
                 self.inj_by_pool[inv.req.pc.idx] += 1
                 self.stats["fault:worker_raises"] += 1
@@ -808,6 +862,9 @@ class Sim:
                 sim._orphans.append(fut)
                 return fut
             return cbf
+        if kind[-1] == "k":
+            self.stats["probe:marked_object_callback"] += 1
+            return _CbMarked(self._make_cb(owner, which, kind[:-1]))
         if kind[-1] in "mop":
             # the same callback in another legal shape: a bound method of an object that only the pool (through the
             # method) refers to / an instance with __call__ / a functools.partial with a bound leading argument
@@ -1500,6 +1557,10 @@ class Sim:
             if ret in live_before:
                 self.violate("C10", "name_collision", f"{kind} generated live group name {ret!r}")
         pc.live_names[ret] = req
+        if gn is not None and kind != "start" and ret != gn:
+            # (already a C10 violation above.)  For the caller the name they asked for is now taken - a second request
+            # with the same explicit name is a duplicate (C09), whatever name the pool filed the first one under
+            pc.live_names.setdefault(gn, req)
         if kind == "start":
             pc.start_calls += 1
         return True
@@ -1666,6 +1727,7 @@ class Sim:
 
     def _mark_group_cancelled(self, pc, name, req, prop):
         req.cancelled_seq = self.seq
+        pc.group_cancels += 1
         del pc.live_names[name]
         # ---- coverage probes for the placement classes named in C07's quantifier (statistics only;
         #      the peek at private attributes never feeds a verdict)
@@ -2319,7 +2381,7 @@ class Sim:
                     good = [i for i, b in enumerate(r.spec["elems"]) if b != 1]
                     if r.pulls != len(r.elems) or not r.exhausted:
                         self.violate_progress(pc, "C05", "not_exhausted", f"r{r.label} {r.kind}: {r.pulls}/{len(r.elems)} elements pulled")
-                    if r.spec.get("fk", "sync") == "sync":
+                    if r.spec.get("fk", "sync") in ("sync", "abc"):
                         if r.called_els != good:
                             self.violate_progress(pc, "C05", "elements_called", f"r{r.label}: func called for elements {r.called_els}, expected {good}")
                         nfail = sum(1 for c in r.calls if c.state == "failed")
